@@ -1,4 +1,5 @@
 import PysnarkModel.Lemmas.FxpValues
+import PysnarkModel.Gen.Api
 import PysnarkModel.Lemmas.FxpRunProg
 import PysnarkModel.Spec.R1CS
 /-!
@@ -281,5 +282,13 @@ example :
     ((run (St.init fxP61 40 8)
       [.lit (.flt 5 1), .mk .privx 0, .lit (.int 0), .mk .privx 2, .bin .truediv 1 3]).err.isSome) = true := by
   fxdec
+
+
+/-- **API surface pinned** (regenerated from the source on every run, `Gen/Api.lean`): the methods the model of this
+property transcribes are exactly the methods the code has.  A method added to the code (say an in-place `__iadd__`, which
+Python would prefer over the `__add__` the model knows) or removed from it changes the generated list and this obligation
+fails: the tie is then broken by construction and the check runs its extended search. -/
+theorem C14_api_surface :
+    Gen.api_LinCombFxp = ["__init__", "add_scaling", "remove_scaling", "val", "__repr__", "_ensurefxp", "__add__", "__sub__", "__rsub__", "__mul__", "__truediv__", "__floordiv__", "__mod__", "__divmod__", "__rtruediv__", "__rfloordiv__", "__rmod__", "__neg__", "__lt__", "__le__", "__eq__", "__ne__", "__gt__", "__ge__", "assert_lt", "assert_le", "assert_eq", "assert_ne", "assert_gt", "assert_ge", "__bool__", "__pow__", "__lshift__", "__rshift__", "__pos__", "__abs__", "__int__", "check_positive", "assert_positive", "check_zero", "check_nonzero", "assert_zero", "assert_nonzero", "assert_range"] := rfl
 
 end Pysnark
